@@ -25,14 +25,14 @@ Inductive label :=
 | Coord (ch : list nat) | Work (w : nat).
 
 Inductive ev :=
-| EAccepted            (* client call enqueued *)
+| EAccepted (j : cjob)  (* client call enqueued job j on the coordinator *)
 | ERefused             (* client call raised AlreadyQuit *)
 | ELimit
 | ECreate (w : nat) (live limit : nat)   (* createWorker made worker w while [live] workers existed *)
 | EDo (w : nat) (t : task)      (* worker.do(doWork) *)
 | EWQuit (w : nat)              (* worker.quit() *)
 | ECoordQuit                    (* coordinator.quit() *)
-| EBacklog (t : task)           (* appended to _pending *)
+| EBacklog (t : task) (live limit : nat)  (* appended to _pending: createWorker refused with [live] workers *)
 | ERan (w : nat) (t : task)     (* the task body ran on worker w (logException called iff it raises) *)
 | ENothing.                     (* perform() returned False *)
 
@@ -75,7 +75,7 @@ Definition coordinate (s : st) (t : task) (ch : list nat) : st * list nat * list
            (mk (tquit s) (limit s) (coordq s) (coord_done s) [] (S (busy s)) (pending s) (toShrink s) (shouldQuit s)
                (S w) (push_w s w (WRun t)), tl ch, [ECreate w live (limit s); EDo w t])
       else (mk (tquit s) (limit s) (coordq s) (coord_done s) (idle s) (busy s) (pending s ++ [t]) (toShrink s)
-               (shouldQuit s) (nworkers s) (wq s), ch, [EBacklog t])
+               (shouldQuit s) (nworkers s) (wq s), ch, [EBacklog t live (limit s)])
   end.
 
 (** _quitIdlers(n) *)
@@ -154,7 +154,7 @@ Definition enqueue (s : st) (j : cjob) : st :=
      (nworkers s) (wq s).
 
 Definition client (s : st) (j : cjob) : st * list ev :=
-  if tquit s then (s, [ERefused]) else (enqueue s j, [EAccepted]).
+  if tquit s then (s, [ERefused]) else (enqueue s j, [EAccepted j]).
 
 Definition step (s : st) (l : label) : st * list ev :=
   match l with
@@ -164,7 +164,7 @@ Definition step (s : st) (l : label) : st * list ev :=
   | Quit =>
       if tquit s then (s, [ERefused])
       else (enqueue (mk true (limit s) (coordq s) (coord_done s) (idle s) (busy s) (pending s) (toShrink s)
-                        (shouldQuit s) (nworkers s) (wq s)) CQuit, [EAccepted])
+                        (shouldQuit s) (nworkers s) (wq s)) CQuit, [EAccepted CQuit])
   | SetLimit k =>
       (mk (tquit s) k (coordq s) (coord_done s) (idle s) (busy s) (pending s) (toShrink s) (shouldQuit s)
           (nworkers s) (wq s), [ELimit])
